@@ -58,7 +58,8 @@ def has_orthogonal(c):
 
 def cfg_C02(tier, rng):
     return [dict(name='skeleton', charts=f1(tier, rng, sample_t=2500) + shipped(max_oracle=4)
-                 + gc.family_hist(rng, 25 if tier == QUICK else 250) + gc.family_hist_orth(rng, 10 if tier == QUICK else 60),
+                 + gc.family_hist(rng, 25 if tier == QUICK else 250) + gc.family_hist_orth(rng, 10 if tier == QUICK else 60)
+                 + gc.family_fanout(rng, 8 if tier == QUICK else 100),
                  consts=dict(MaxQ=1, MaxLevel=8 if tier == QUICK else 10),
                  variants=[dict(variant='api')],
                  random=dict(count=150 if tier == QUICK else 1500, length=12,
@@ -67,7 +68,7 @@ def cfg_C02(tier, rng):
 
 def cfg_C03(tier, rng):
     return [dict(name='skeleton', charts=f1(tier, rng, sample_t=2000) + shipped(max_oracle=4)
-                 + gc.family_hist(rng, 20 if tier == QUICK else 200),
+                 + gc.family_hist(rng, 20 if tier == QUICK else 200) + gc.family_fanout(rng, 12 if tier == QUICK else 150),
                  consts=dict(MaxQ=1, MaxLevel=8 if tier == QUICK else 10),
                  variants=[dict(variant='api_edit'), dict(variant='ryaml')],
                  jobs_for=(lambda ci, h, r: [dict(variant=('api_edit', 'ryaml')[(ci + len(h)) % 2])]) if tier == QUICK else None,
@@ -262,6 +263,7 @@ def mixed_family(tier, rng, small=40, big=20):
 
 def cfg_C07(tier, rng):
     charts = thin(mixed_family(tier, rng), rng, 8) + gc.family_nested(rng, 24 if tier == QUICK else 400)
+    charts += gc.family_fanout(rng, 6 if tier == QUICK else 80)
     rd = dict(count=100 if tier == QUICK else 1000, length=14,
               family=lambda r, kk: gc.family_f3(r, kk, nmin=5, nmax=9))
     return [dict(name='declaration', charts=charts,
